@@ -130,7 +130,8 @@ def oracle(tier, rng, deep=False):
                 if site is None and stop <= tol and "viol" in inp and k > 0:
                     v = inp["viol"](w, b)
                     if not abs(v - stop) <= 1e-4 * (1 + abs(v)) + 1e-9:
-                        site, obs = f"stop-not-violation-of-returned-point:{sname}", dict(k=k, stop=stop, recomputed=v, tol=tol)
+                        extra = ":Logistic+intercept" if ("Logistic" in label and inp.get("knobs", {}).get("fit_intercept")) else ""
+                        site, obs = f"stop-not-violation-of-returned-point:{sname}{extra}", dict(k=k, stop=stop, recomputed=v, tol=tol)
                 if site is None and prev is not None and len(objs) >= len(prev) and sname not in ("LBFGS",):
                     if not np.allclose(objs[:len(prev)], prev, rtol=1e-9, atol=1e-12):
                         site, obs = f"history-not-prefix:{sname}", dict(k=k, prev=prev.tolist(), now=objs.tolist())
